@@ -47,6 +47,7 @@ class TimerModel:
         self.T = None
         self.last_t = None   # scheduled time of the previous call run in this pass
         self.ran_log = []    # (cid, time it ran at)
+        self.nest = 0        # advances in progress that were issued from inside a running call (optional family, see begin_nested)
 
     # ------------------------------------------------------------ operations
     def create(self, cid, delay):
@@ -131,6 +132,7 @@ class TimerModel:
         self.pass_no += 1
         self.in_pass = True
         self.T = self.now
+        self.nest = 0
         self.last_t = None
         for c in self.calls.values():
             c.backdated = False
@@ -198,6 +200,34 @@ class TimerModel:
         pending, so the next pass that completes has to run them."""
         assert self.in_pass
         self.in_pass = False
+        self.nest = 0
+
+    # ------------------------------------------------------------ advances from inside a running call (optional)
+    # Mode "clock" only; nothing uses these unless a scenario switches the family on.  A running call may itself call
+    # advance(amount) ("this callable took that long"): the clock moves on while the outer advance is still in progress.
+    # Every advance, at whatever depth, that returns normally has run each call whose time the clock had reached by then
+    # (end_nested); so does the outermost one (end_pass compares with the time the clock stands at, self.T follows it).
+    def begin_nested(self, amount):
+        assert self.mode == "clock" and self.in_pass and amount >= 0
+        self.now += amount
+        self.T = self.now
+        self.nest += 1
+
+    def end_nested(self):
+        """The advance issued from inside a running call returned normally."""
+        assert self.in_pass and self.nest > 0
+        self.nest -= 1
+        for c in sorted(self.calls.values(), key=lambda c: c.seq):
+            if c.state == PENDING and c.t <= self.now:
+                return [("runs-in-first-advance", "advance from inside a running call reached %r but call %s (t=%r) did not run"
+                         % (self.now, c.cid, c.t))]
+        return []
+
+    def abort_nested(self):
+        """An exception cut that advance short (see abort_pass): no verdict for it; the enclosing advance is still in
+        progress and, if it returns normally, has to have run whatever was left."""
+        assert self.in_pass and self.nest > 0
+        self.nest -= 1
 
     def unfinished(self):
         return [c.cid for c in self.calls.values() if c.state == PENDING]
